@@ -314,12 +314,12 @@ PROPS["C13"] = {
          "quick": ["VP_C13_Accept", "VP_C13_AddBlock"],
          "thorough": []},
         {"dir": "consensus",
-         "quick": ["VP_C13_Handover_n0", "VP_C13_Handover_n1", "VP_C13_Handover_n2"],
+         "quick": ["VP_C13_Handover_n0", "VP_C13_Handover_n1", "VP_C13_Handover_n2", "VP_C13_Handover_n2_setchange"],
          "thorough": []},
     ],
     "bounds": {
         "who may fill a request (H2, part)": "the real BlockPool.AddBlock / bpRequester.setBlock on a requester that is unassigned, assigned to p1, or already filled, with a block sent by p1, by another known peer or by a stranger: taken only as the assigned peer's first answer, every other sender reported",
-        "hand-over (H3)": "0, 1 or 2 blocks stored (block store with seen commits, state store) through the real commit pipeline of a 1-validator chain; then a consensus State built from the start-up state and the real Reactor.SwitchToConsensus (service start stubbed): no panic, next height, last commit rebuilt with +2/3",
+        "hand-over (H3)": "0, 1 or 2 blocks stored (block store with seen commits, state store) through the real commit pipeline of a 1-validator chain (one entry with a second, heavier validator joining, so that the set that signed the last stored block differs from the set of the height consensus starts at); then a consensus State built from the start-up state and the real Reactor.SwitchToConsensus (service start stubbed): no panic, next height, last commit rebuilt with +2/3",
         "acceptance step (H1)": "the real BlockchainReactor.poolRoutine (its goroutines and tickers scheduled by the engine on virtual time) with two blocks already received from two peers; 4 validators of power 10, a different validator set from height 2 on; `first` canonical or another well-formed block; second.LastCommit for the canonical block or for `first`, each of its 4 slots one of {genuine, junk signature, absent, genuine signature under another validator's address, a genuine precommit for nil}; real block store (MemDB) and real ValidateBlock; after the step: what was saved, executed, which peers were dropped, and whether types.CommitToVoteSet on the stored seen commit (what consensus does when it takes over) succeeds",
     },
     "stubs": ["p2p.Switch methods (Peers, StopPeerForError, Reactor, NumPeers) and BlockExecutor.ApplyBlock replaced by recorders (engine-level function interception): counterexamples are replayed in the interpreter", "requester goroutines emulated (a redo clears the requester's block)", "ed25519/sha256 concrete (real)"],
